@@ -22,7 +22,9 @@ class C17(Prop):
             "component (formats/treeinfo_compat.py: family table, milestone versions, RHEL 5 Server/Client, kept-section arches, legacy "
             "path shapes, absolute instimage, float timestamps below 1, integers beyond 2^53, dashed main variants); "
             "non-trivial = distinct inputs the library agreed to write")
-    assumptions = ["int(x) of a float timestamp is evaluated by CPython and carried in the float token (floats are never computed in Lean)"]
+    assumptions = ["int(x) of a float timestamp is evaluated by CPython and carried in the float token (floats are never computed in Lean)",
+                   "C17_legacy_reader_partial: int(float(s)) of the written [general] timestamp is answered by CPython (hypothesis hfl; = the "
+                   "integer itself up to 2^53); the stand-in for 'a pre-productmd reader' is the library's own no-header (0.0) reader"]
     partial = {
         "C17_legacy_reader_partial": "the last sentence of the property holds with side conditions (all decidable, necessity of the three substantial "
                                      "ones decided and replayed on the real code): [general] variant without a dash (F45), int(build_timestamp) != 0 "
